@@ -228,7 +228,11 @@ def discharge(ctx: Ctx, ob: Obligation, use_cvc5_always=False, cheap=False) -> d
     if r == z3.unknown and "incomplete" in s.reason_unknown() and not cheap:
         # z3 gave up without exhausting its budget (E-matching found no contradiction under this instantiation order):
         # small portfolio of random seeds; `unsat` from any run is a proof
-        for seed in range(1, 5):
+        # (a quick give-up costs milliseconds: up to 32 seeds, as long as the portfolio stays within one budget)
+        t_port = time.time()
+        for seed in range(1, 33):
+            if (time.time() - t_port) * 1000 > ctx.timeout_ms:
+                break
             s2 = _mk_solver(ctx, ctx.timeout_ms)
             s2.set("random_seed", seed)
             s2.set("smt.random_seed", seed)
